@@ -65,8 +65,8 @@ BISECT = Contract(
     extra=dict(engine=OpaqueEngine, variant="bisection-block", frame_ghosts=False,
                ghost_writeback={"last_eval": "last_eval"}, callee_contracts={"eval": EVAL},
                local_types=dict(alpha=TInt), pure_methods=("_get_x_limits",),
-               block=dict(first="alpha = -1", last="self.x -= this_xstep")),
-    note="block contract: from `alpha = -1` to `self.x -= this_xstep`")
+               block=dict(first="alpha = -1", until="self.mask_from_limits = ~mask_hit_limit")),
+    note="block contract: from `alpha = -1` up to (not including) `self.mask_from_limits = ~mask_hit_limit`")
 
 VARIANTS = [BISECT, EVAL_PROVED]
 CONTRACTS = []
